@@ -160,6 +160,10 @@ pub struct Violation {
 /// Run `n_runs` seeded runs over the worker threads. Run i uses seed derive(base, prop, i) and
 /// is assigned to worker i mod W, so results do not depend on timing. Each run may report
 /// violations; at most `max_violations` (lowest run indexes first) are kept.
+/// Wall-clock budget of one batch in seconds (0 = none). Set by `main` for the thorough tier
+/// (default 3000 s, `VERIF_BUDGET_S` overrides); the quick tier is bounded by its run count only.
+pub static BUDGET_S: AtomicU64 = AtomicU64::new(0);
+
 pub fn parallel_runs<F>(prop: &str, n_runs: u64, f: F) -> (Counters, Vec<Violation>, f64)
 where
     F: Fn(u64, u64, &mut Counters) -> Vec<Violation> + Sync,
@@ -182,7 +186,13 @@ where
                 let mut local = Counters::new();
                 let mut viols = vec![];
                 let mut i = wi as u64;
+                let budget = BUDGET_S.load(Ordering::Relaxed);
                 while i < n_runs {
+                    if budget > 0 && start.elapsed().as_secs() >= budget {
+                        local.inc("workers_stopped_by_wall_clock_budget");
+                        local.add("runs_not_started_within_budget", (n_runs - i).div_ceil(w as u64));
+                        break;
+                    }
                     let seed = derive(base, &prop, i);
                     let r = std::panic::catch_unwind(std::panic::AssertUnwindSafe(|| f(i, seed, &mut local)));
                     match r {
